@@ -21,7 +21,7 @@ use std::time::{Duration, Instant};
 
 pub fn defs() -> Vec<ScenDef> {
     let d = |name, f, fire| ScenDef { name, f, fire, gate_sites: &[], pool_cap: None, only_sites: &[] };
-    vec![d("io", io as fn(&mut Exec) -> Res, false), d("tcp", tcp, false), d("dgram", dgram, false), d("iot", iot, false), d("iocan", iocan, true), d("unixsrv", unixsrv, false), d("iochurn", iochurn, false), d("iocant", iocant, true), d("ioext", ioext, false)]
+    vec![d("io", io as fn(&mut Exec) -> Res, false), d("tcp", tcp, false), d("dgram", dgram, false), d("iot", iot, false), d("iocan", iocan, true), d("unixsrv", unixsrv, false), d("iochurn", iochurn, false), d("iocant", iocant, true), d("ioext", ioext, false), d("iocanshare", iocanshare, true)]
 }
 
 type Grave = Arc<std::sync::Mutex<Vec<Box<dyn Any + Send>>>>;
@@ -1298,6 +1298,112 @@ fn ioext(x: &mut Exec) -> Res {
     grave.lock().unwrap().clear();
     if let Some(e) = err.lock().unwrap().take() {
         return viol(format!("socket API ({}): {}", ["split tcp", "split unix", "peek", "connect_timeout", "CoIo", "wait_io"][kind as usize], e));
+    }
+    Ok(())
+}
+
+// ------------------------------------------------------------------------------------ C09 / C18: cancel after an earlier socket wait
+/// The target has waited on a socket before (and was resumed by the event), now it blocks in something that is not I/O
+/// while *another* coroutine is blocked on that same socket. A cancel of the target must reach the target - not whoever
+/// sits in the socket it used last - and the other coroutine must neither end nor observe a cancellation.
+fn iocanshare(x: &mut Exec) -> Res {
+    let sock = Arc::new(UdpSocket::bind(lo0()).map_err(|e| Fail::Inconclusive(format!("bind: {}", e)))?);
+    let addr = sock.local_addr().unwrap();
+    let sender = std::net::UdpSocket::bind(lo0()).map_err(|e| Fail::Inconclusive(format!("bind: {}", e)))?;
+    let errs = Arc::new(std::sync::Mutex::new(Vec::<String>::new()));
+    let stage = Arc::new(AtomicUsize::new(0)); // 1: target got its datagram, 2: target about to block in the channel
+    let other_in = Arc::new(AtomicBool::new(false));
+    let nonio = x.rng.below(3); // what the target blocks in afterwards: mpsc recv, park, semaphore
+    let (_tx, rx) = may::sync::mpsc::channel::<u8>();
+    let sem = Arc::new(may::sync::Semphore::new(0));
+    let (s1, st1, e1) = (sock.clone(), stage.clone(), errs.clone());
+    let (_, target) = x.spawn_co("target", move |act| {
+        let mut buf = [0u8; 8];
+        act.call("recv_from", s1.as_raw_fd() as u64);
+        let r = s1.recv_from(&mut buf);
+        act.ret("recv_from", 0, r.is_ok() as u64);
+        if !matches!(r, Ok((1, _))) || buf[0] != 1 {
+            e1.lock().unwrap().push(format!("target: first datagram came as {:?}", r.map(|v| v.0).map_err(|e| e.kind())));
+        }
+        st1.store(1, SeqCst);
+        // give the other coroutine time to get into the socket
+        while st1.load(SeqCst) < 2 {
+            coroutine::sleep(Duration::from_micros(100));
+        }
+        act.call("non-io wait", nonio);
+        match nonio {
+            0 => {
+                let _ = rx.recv();
+            }
+            1 => loop {
+                coroutine::park();
+            },
+            _ => sem.wait(),
+        }
+        act.ret("non-io wait", nonio, 0);
+        loop {
+            coroutine::park();
+        }
+    });
+    let (s2, st2, e2, oi) = (sock.clone(), stage.clone(), errs.clone(), other_in.clone());
+    let other_done = Arc::new(AtomicBool::new(false));
+    let od = other_done.clone();
+    x.spawn("other", true, move |act| {
+        let t0 = Instant::now();
+        while st2.load(SeqCst) < 1 && t0.elapsed() < Duration::from_secs(4) {
+            coroutine::sleep(Duration::from_micros(100));
+        }
+        let mut buf = [0u8; 8];
+        oi.store(true, SeqCst);
+        act.call("recv_from", s2.as_raw_fd() as u64);
+        let r = std::panic::catch_unwind(std::panic::AssertUnwindSafe(|| s2.recv_from(&mut buf)));
+        act.ret("recv_from", 0, 0);
+        match r {
+            Ok(Ok((1, _))) if buf[0] == 2 => {}
+            Ok(other) => e2.lock().unwrap().push(format!("the other coroutine's recv_from on the shared socket returned {:?} (byte {}) instead of the second datagram", other.map(|v| v.0).map_err(|e| e.kind()), buf[0])),
+            Err(p) => {
+                e2.lock().unwrap().push(format!("the other coroutine, which nobody cancelled, was thrown out of its recv_from by a panic (cancel: {})", is_cancel_panic(&p)));
+            }
+        }
+        od.store(true, SeqCst);
+    });
+    x.desc = format!("target: udp recv_from (resumed by a datagram), then blocked in {}; another coroutine blocked in recv_from on the same socket; the target is cancelled", ["mpsc recv", "park", "Semphore::wait"][nonio as usize]);
+    let _ = sender.send_to(&[1], addr);
+    // wait for: target past its datagram, other inside the socket
+    let t0 = Instant::now();
+    while !(stage.load(SeqCst) >= 1 && other_in.load(SeqCst)) && t0.elapsed() < Duration::from_secs(4) {
+        std::thread::sleep(Duration::from_micros(100));
+    }
+    if !(stage.load(SeqCst) >= 1 && other_in.load(SeqCst)) {
+        return Err(Fail::Inconclusive("the two coroutines did not get into position within 4s".into()));
+    }
+    nap(300 + x.rng.below(600));
+    stage.store(2, SeqCst);
+    let at = 300 + x.rng.below(900);
+    wait_fire(at);
+    unsafe { target.coroutine().cancel() };
+    {
+        let t2 = &target;
+        let r = x.wait_cond(&|| t2.is_done());
+        cancelled_must_end(r)?;
+    }
+    match target.join() {
+        Err(e) if is_cancel_panic(&e) => {}
+        Err(_) => return viol("cancel after an earlier socket wait: join() reported a non-Cancel panic"),
+        Ok(_) => return viol("cancel after an earlier socket wait: join() of the cancelled endless target returned Ok"),
+    }
+    if other_done.load(SeqCst) {
+        if let Some(e) = errs.lock().unwrap().first() {
+            return viol(format!("cancel after an earlier socket wait: {}", e));
+        }
+        return viol("cancel after an earlier socket wait: the other coroutine left its recv_from although nothing had arrived for it");
+    }
+    // the other coroutine is still in the socket and gets what is sent now
+    let _ = sender.send_to(&[2], addr);
+    let r = x.wait_all();
+    io_verdict(x, r)?;
+    if let Some(e) = errs.lock().unwrap().first() {
+        return viol(format!("cancel after an earlier socket wait: {}", e));
     }
     Ok(())
 }
